@@ -505,6 +505,22 @@ func report(o *vh.Obs, what string, rej []rejection) {
 	for _, r := range rej {
 		dbgSig(r.sig, what+": "+r.msg)
 	}
+	if os.Getenv("C11_DEBUG_COLLECT") != "" {
+		return // development aid only: list every signature (C11_DEBUG=1) instead of stopping at the first
+	}
+	if skip := os.Getenv("C11_DEBUG_SKIP"); skip != "" {
+		// development aid only: look past signatures already understood
+		re := regexp.MustCompile(skip)
+		var rest []rejection
+		for _, r := range rej {
+			if !re.MatchString(r.sig) {
+				rest = append(rest, r)
+			}
+		}
+		if rej = rest; len(rej) == 0 {
+			return
+		}
+	}
 	pick := rej[0]
 	for _, r := range rej {
 		if !vh.KnownSig(r.sig) {
@@ -546,6 +562,13 @@ func enumCorpus(yield func(CorpusCase) bool) {
 // validEnvelope builds, calculates and validates; ok=false when the library
 // itself does not accept the document.
 func validEnvelope(js []byte, isEnv bool) (env *gobl.Envelope, out []byte, why string) {
+	defer func() {
+		// a crash of Calculate / Validate is C14's subject; for this property
+		// the document simply is not one the library accepted
+		if r := recover(); r != nil {
+			env, out, why = nil, nil, fmt.Sprintf("panic: %v", r)
+		}
+	}()
 	env, err := corpus.EnvelopeOf(js, isEnv)
 	if err != nil {
 		return nil, nil, "calculate: " + err.Error()
@@ -1938,6 +1961,90 @@ func judgeMutation(c MutCase, o *vh.Obs) {
 }
 
 // ---------------------------------------------------------------------------
+// (C') the same judge driven exhaustively: every Go field of a constrained
+// type (key, code, enumerated code, uuid, date) receives every shape of its
+// pool once, at the first position of the corpus where the field occurs.
+
+func sweepValues(goType string) []string {
+	loadPools()
+	switch goType {
+	case "cbc.Key":
+		return append(append([]string{}, keyShapes...), keyEdge...)
+	case "cbc.Code":
+		return append(append([]string{}, codeShapes...), codeEdge...)
+	case "uuid.UUID":
+		return uuidShapes
+	case "cal.Date":
+		return dateShapes
+	case "cal.DateTime":
+		return dateTimeShapes
+	case "org.Unit":
+		return []string{"kg", "h", "KGM", "C62", "1A", "ZZ", "99", "Z", "ABCD", "kgm", "item"}
+	case "l10n.ISOCountryCode":
+		return []string{"ES", "GB", "EL", "XI", "XX", "es", "ESP", "UK", "AQ"}
+	case "l10n.TaxCountryCode":
+		return []string{"ES", "GB", "EL", "XI", "GR", "XX", "es", "ESP", "UK", "EU", "AQ"}
+	case "currency.Code":
+		return []string{"EUR", "USD", "CLF", "XXX", "eur", "EURO", "BTC", "XAU"}
+	case "l10n.Code":
+		return l10nCodeShapes
+	case "i18n.Lang":
+		return langShapes
+	}
+	return nil
+}
+
+func enumFields(yield func(MutCase) bool) {
+	loadBases()
+	type at struct {
+		b *base
+		s site
+	}
+	first := map[string]at{}
+	var order []string
+	for _, b := range bases {
+		for _, s := range b.Sites {
+			c := category(s)
+			if s.Kind != "leaf" || (c != "key" && c != "code" && c != "enum" && c != "uuid" && c != "date") {
+				continue
+			}
+			f := s.Field
+			if f == "" {
+				f = "[]" + s.Of
+			}
+			if s.Ptr == "/doc/$regime" {
+				continue // changing the regime changes every rule at once; left to the random search
+			}
+			cur, ok := first[f]
+			if !ok {
+				order = append(order, f)
+			}
+			// a position that is present beats an absent one
+			if !ok || (!cur.s.Present && s.Present) {
+				first[f] = at{b, s}
+			}
+		}
+	}
+	idx := 0
+	for _, f := range order {
+		a := first[f]
+		for _, v := range sweepValues(a.s.GoType) {
+			idx++
+			if idx%vh.Cfg().Shards != vh.Cfg().Shard {
+				continue
+			}
+			kind := "leaf:sweep:" + a.s.GoType
+			if !a.s.Present {
+				kind = "leaf-new:sweep:" + a.s.GoType
+			}
+			if !yield(MutCase{Path: a.b.Path, Ops: []Op{{Op: "set", Ptr: a.s.Ptr, Value: jstr(v), Kind: kind}}}) {
+				return
+			}
+		}
+	}
+}
+
+// ---------------------------------------------------------------------------
 // (B') the definitions the library publishes are documents of registered
 // types too (tax/regime-def, tax/addon-def, tax/catalogue-def)
 
@@ -2034,5 +2141,6 @@ func init() {
 	vh.Enum("schemas", enumSchemas, judgeSchema)
 	vh.Enum("corpus", enumCorpus, judgeCorpus)
 	vh.Enum("definitions", enumDefs, judgeDef)
+	vh.Enum("fields", enumFields, judgeMutation)
 	vh.Rapid("mutations", 1200, 24000, genMutation, judgeMutation)
 }
